@@ -50,6 +50,8 @@ impl EnergyIndicators {
         #[cfg(cteenergymodel_verif)]
         crate::verif_hooks::point("indicators:props");
         let props = EnergyProps::from(model);
+        #[cfg(cteenergymodel_verif)]
+        crate::verif_hooks::point("indicators:assemble");
 
         Self {
             area_ref: props.global.a_ref,
